@@ -77,6 +77,10 @@ func TestC14(t *testing.T) {
 					// a block whose links are not in name order (decodable; only the encoder sorts)
 					ls[0], ls[n-1] = ls[n-1], ls[0]
 					c.Count("unsorted_link_lists", 1)
+					// ... and a link without a name after named ones (it is addressed by the empty name)
+					data := []byte(fmt.Sprintf("nameless-%d-%d", rep, rr.Intn(1000)))
+					ls = append(ls, pbLinkSpec{Tsize: u64p(uint64(len(data))), Cid: st.PutBlock(1, cid.Raw, data)})
+					names = append(names, "")
 				}
 				return ls, names
 			}
